@@ -81,14 +81,13 @@ structure Grant where
 def validAccess (gs : List Grant) (now : Int) (tok : Nat) : Option (List Char) :=
   (gs.find? (fun g => g.live && g.a = tok && decide (g.aexp > now))).map (·.user)
 
-/-- presenting `tok` to the refresh end point: a live grant whose refresh token it is is used up;
-    a new grant is issued if that refresh token had not expired -/
+/-- presenting `tok` to the refresh end point: if it is the unexpired refresh token of a live grant,
+    that grant is used up and its user gets a new one; anything else changes nothing -/
 def refreshGrant (gs : List Grant) (now : Int) (tok : Nat) : List Grant × Option (List Char) :=
-  match gs.find? (fun g => g.live && g.r = tok) with
+  match gs.find? (fun g => g.live && decide (g.r = tok) && decide (g.rexp > now)) with
   | none => (gs, none)
   | some g =>
-    (gs.map (fun x => if x.live && x.r = tok then { x with live := false } else x),
-     if g.rexp > now then some g.user else none)
+    (gs.map (fun x => if x.live && decide (x.r = tok) then { x with live := false } else x), some g.user)
 
 structure SWorld where
   authOn : Bool
